@@ -3,6 +3,7 @@
    is regenerated from channels/channels_fsm.go on every run. *)
 From Coq Require Import List NArith ZArith String Bool.
 From DT Require Import GenStatus GenEvent FsmTypes GenFsm Fsm FsmFacts C03Proofs.
+From DT Require GenDecide DecideEq.
 Import ListNotations.
 
 (* every event code is either bookkeeping or lifecycle, never both *)
@@ -84,3 +85,12 @@ Theorem C03_begin_finalizing_enters_finalizing : forall s,
   is_final s = false -> next_status BeginFinalizing s = Finalizing /\ next_status Complete s = Completing.
 Proof. exact begin_finalizing_enters_finalizing. Qed.
 Print Assumptions C03_begin_finalizing_enters_finalizing.
+
+(* the pause rule the theorems above are about (Node.leave_paused: forced pause, or finalization
+   still required on a channel in finalization, or a non-zero data limit already reached by the
+   limited total) is the one in the source: GenDecide.gen_LeaveRequestPaused is regenerated from
+   manager.go ValidationResult.LeaveRequestPaused on every run *)
+Theorem C03_pause_rule_is_the_sources :
+  forall vr c, GenDecide.gen_LeaveRequestPaused vr c = Node.leave_paused vr c.
+Proof. exact DecideEq.leave_paused_is_source. Qed.
+Print Assumptions C03_pause_rule_is_the_sources.
